@@ -81,6 +81,7 @@ theorem extract_set_push (a : Array Nat) (i v : Nat) (hi : i < a.size) :
     · have : k = i := by omega
       subst this
       simp [hk]
+      intro h; omega
 
 theorem fill_extract (a : Array Nat) (i val : Nat) : ∀ rep, i + rep ≤ a.size →
     ((List.range rep).foldl (fun l j => l.setIfInBounds (i + j) val) a).extract 0 (i + rep) =
@@ -180,19 +181,20 @@ theorem readLengths_sim (lh : Huffman) (cl1 : Array Nat) (hg : lh.Good cl1) (hnz
                 -- the repeat count
                 have hnbv : nb = (if Int.ofNat v = 16 then 2 else if Int.ofNat v = 17 then 3 else 7) ∧
                     (base : Int) = (if Int.ofNat v = 18 then (11 : Int) else 3) ∧ nb ≤ 7 ∧ base ≤ 11 := by
-                  rw [hvcast]
-                  by_cases c16 : v = 16
-                  · simp only [c16, if_true] at hbn
-                    obtain ⟨rfl, rfl⟩ := Prod.mk.inj hbn
-                    simp [c16]
-                  · by_cases c17 : v = 17
-                    · simp only [c16, if_false, c17, if_true] at hbn
-                      obtain ⟨rfl, rfl⟩ := Prod.mk.inj hbn
-                      simp [c17]
-                    · simp only [c16, c17, if_false] at hbn
-                      obtain ⟨rfl, rfl⟩ := Prod.mk.inj hbn
-                      have : v = 18 := by omega
-                      simp [this]
+                  have hv' : v = 16 ∨ v = 17 ∨ v = 18 := by omega
+                  rcases hv' with c | c | c
+                  · subst c
+                    simp at hbn
+                    obtain ⟨rfl, rfl⟩ := hbn
+                    exact ⟨by decide, by decide, by omega, by omega⟩
+                  · subst c
+                    simp at hbn
+                    obtain ⟨rfl, rfl⟩ := hbn
+                    exact ⟨by decide, by decide, by omega, by omega⟩
+                  · subst c
+                    simp at hbn
+                    obtain ⟨rfl, rfl⟩ := hbn
+                    exact ⟨by decide, by decide, by omega, by omega⟩
                 obtain ⟨enb, ebase, hnb7, hb11⟩ := hnbv
                 rw [← enb, ← ebase]
                 obtain ⟨t1, i2, q2, y2⟩ := take_avail b1 i1 nb (by omega) (by rw [y1, hy, q1]; exact hav)
@@ -209,7 +211,7 @@ theorem readLengths_sim (lh : Huffman) (cl1 : Array Nat) (hg : lh.Good cl1) (hnz
                 rw [hw]
                 have nn : ¬ (((base + bitsLE s p1 nb : Nat) : Int) < 0) := by omega
                 rw [if_neg nn]
-                have htn : ((base + bitsLE s p1 nb : Nat) : Int).toNat = base + bitsLE s p1 nb := by simp
+                have htn : ((base + bitsLE s p1 nb : Nat) : Int).toNat = base + bitsLE s p1 nb := Int.toNat_natCast _
                 rw [htn]
                 have c1 : ¬ (i + (base + bitsLE s p1 nb) > n) := by omega
                 have c2 : ¬ (i + (base + bitsLE s p1 nb) > lengths.size) := by omega
@@ -220,8 +222,8 @@ theorem readLengths_sim (lh : Huffman) (cl1 : Array Nat) (hg : lh.Good cl1) (hnz
                   rw [hvcast]
                   by_cases c16 : v = 16
                   · have : i ≠ 0 := by intro hh; exact h16 ⟨c16, hh⟩
-                    simp only [c16, Nat.cast_ofNat, if_true]
-                    rw [getD_extract_nat lengths i (i - 1) (by omega)]
+                    have e16 : ((v : Nat) : Int) = 16 := by omega
+                    rw [if_pos e16, if_pos c16, getD_extract_nat lengths i (i - 1) (by omega)]
                   · have : ¬ ((v : Int) = 16) := by omega
                     simp [c16, this]
                 rw [hval]
